@@ -46,6 +46,9 @@ type c09Cfg struct {
 	// SlogDepth: number of groups already pending on the SHARED slog handler (0, 3, 5, 6, 7): goroutines derive sibling
 	// handlers from it concurrently, which must not touch shared state (a pending-group slice with spare capacity)
 	SlogDepth int `json:"slogdepth,omitempty"`
+	// Bare: the encoder configuration leaves every encoder function nil (the encoders then fall back to their defaults at
+	// the moment of use — which must not be recorded in the configuration shared by all clones)
+	Bare bool `json:"bare,omitempty"`
 }
 
 type c09Op struct {
@@ -63,7 +66,7 @@ var c09Wraps = []string{"lazy", "with", "hooked", "incr", "named", "caller", "st
 
 var c09Acts = []string{"log", "log", "log", "log", "log", "with", "withlazy", "named", "sugar", "withopts", "level", "sync",
 	"setlevel", "getlevel", "leveltext", "replace", "global", "obslen", "obsall", "obstake", "obsfilter", "bwssync",
-	"slog", "slogwith", "sloggroup", "sloggroup", "share", "adopt", "checkonly", "core", "logbad"}
+	"slog", "slogwith", "sloggroup", "sloggroup", "share", "adopt", "checkonly", "core", "logbad", "logrich", "logrich"}
 
 var c09Fes = []string{"plain", "log", "check", "sugarw", "sugarf", "sugar", "sugarln"}
 
@@ -84,8 +87,25 @@ func c09Gen(r *Rand, tier string, emit func(op any)) {
 			}
 		}
 	}
+	// cold loggers over a BARE encoder configuration: the first typed fields are encoded by several goroutines at once
+	for _, base := range []string{"io", "bws", "combine1"} {
+		for _, wrap := range [][]string{{}, {"with"}, {"named", "lazy"}} {
+			gs := make([][]c09Act, 4)
+			for i := range gs {
+				gs[i] = []c09Act{{A: "logrich"}, {A: "log", Lvl: 1, Fe: "plain"}, {A: "logrich"}}
+			}
+			emit(c09Op{K: "prog", Cfg: c09Cfg{Base: base, Wrap: wrap, Bare: true}, Warm: false, Gs: gs})
+		}
+	}
+	for _, base := range []string{"combine1", "combine2", "bwsraw"} {
+		gs := make([][]c09Act, 4)
+		for i := range gs {
+			gs[i] = []c09Act{{A: "log", Lvl: 0, Fe: "plain"}, {A: "log", Lvl: 2, Fe: "sugarw"}, {A: "sync"}, {A: "log", Lvl: 1, Fe: "plain"}}
+		}
+		emit(c09Op{K: "prog", Cfg: c09Cfg{Base: base, Wrap: []string{}}, Warm: true, Gs: gs})
+	}
 	for i := 0; i < n; i++ {
-		cfg := c09Cfg{Base: Pick(r, []string{"obs", "io", "io", "bws", "bwsraw"}), SlogDepth: Pick(r, []int{0, 0, 3, 5, 6, 7}), Wrap: []string{}}
+		cfg := c09Cfg{Base: Pick(r, []string{"obs", "io", "io", "bws", "bwsraw", "combine1", "combine2"}), SlogDepth: Pick(r, []int{0, 0, 3, 5, 6, 7}), Wrap: []string{}}
 		nw := r.Intn(5)
 		for j := 0; j < nw; j++ {
 			w := Pick(r, c09Wraps)
@@ -107,6 +127,7 @@ func c09Gen(r *Rand, tier string, emit func(op any)) {
 				gs[gi][k] = a
 			}
 		}
+		cfg.Bare = i%3 == 1
 		emit(c09Op{K: "prog", Cfg: cfg, Warm: r.Chance(1, 2), Gs: gs})
 	}
 }
@@ -144,6 +165,9 @@ func c09Build(op *c09Op) *c09World {
 	obsCore, logs := observer.New(zapcore.DebugLevel)
 	w.logs = logs
 	encCfg := zap.NewProductionEncoderConfig()
+	if op.Cfg.Bare {
+		encCfg = zapcore.EncoderConfig{MessageKey: "msg", LevelKey: "level", TimeKey: "ts", NameKey: "logger", CallerKey: "caller", StacktraceKey: "stacktrace"}
+	}
 	var core zapcore.Core = obsCore
 	switch op.Cfg.Base {
 	case "io":
@@ -154,6 +178,12 @@ func c09Build(op *c09Op) *c09World {
 		// flush interval make Write-overflow flushes, ticks and explicit Syncs all reach the sink
 		w.bws = &zapcore.BufferedWriteSyncer{WS: w.sink, Size: 256, FlushInterval: 200 * time.Microsecond}
 		core = zapcore.NewTee(zapcore.NewCore(zapcore.NewJSONEncoder(encCfg), w.bws, w.al), obsCore)
+	case "combine1":
+		// zap.CombineWriteSyncers is documented to return a LOCKED WriteSyncer — of one writer as well as of several (it is
+		// what zap.Open and Config.Build put in front of the sinks they open); the sink itself is not synchronised
+		core = zapcore.NewTee(zapcore.NewCore(zapcore.NewJSONEncoder(encCfg), zap.CombineWriteSyncers(w.sink), w.al), obsCore)
+	case "combine2":
+		core = zapcore.NewTee(zapcore.NewCore(zapcore.NewJSONEncoder(encCfg), zap.CombineWriteSyncers(w.sink, &c09Sink{}), w.al), obsCore)
 	case "bws":
 		w.bws = &zapcore.BufferedWriteSyncer{WS: zapcore.Lock(w.sink), Size: 512, FlushInterval: time.Millisecond}
 		core = zapcore.NewTee(zapcore.NewCore(zapcore.NewJSONEncoder(encCfg), w.bws, w.al), obsCore)
@@ -276,6 +306,12 @@ func (w *c09World) run(g int, acts []c09Act) {
 				// the same concurrency as everything else (message differs from the counted one)
 				local.Info("m-bad", zap.Reflect("ch", make(chan int)), zap.Int("i", i),
 					zap.Object("o", zapcore.ObjectMarshalerFunc(func(e zapcore.ObjectEncoder) error { e.AddInt("k", i); return errors.New("no") })))
+			case "logrich":
+				// the typed fields whose encoding goes through the configurable sub-encoders and the reflection / error paths
+				local.Info("m-rich", zap.Duration("d", time.Duration(i)), zap.Time("t", time.Unix(int64(i), 0)), zap.Stringer("s", zapcore.Level(i%5)),
+					zap.Error(errors.New("e")), zap.Strings("ss", []string{"a", "b"}), zap.Binary("b", []byte{1, 2, 3}), zap.Reflect("r", map[string]int{"k": i}),
+					zap.Durations("ds", []time.Duration{1, 2}), zap.Times("ts", []time.Time{time.Unix(1, 0)}), zap.Complex128("c", complex(1, 2)),
+					zap.Stack("st"), zap.Float64("f", 1.5), zap.Any("any", []any{1, "x"}))
 			case "checkonly":
 				_ = local.Check(zapcore.Level(a.Lvl), "x") // an unwritten CheckedEntry is simply dropped
 			case "with":
